@@ -132,7 +132,7 @@ def ball_pt(rng, rmax=0.9):
 def gen_poly(rng, n):
     for i in range(n):
         nv = rng.choice([3, 4, 5, 6, 7, 8])
-        kind = rng.choice(["random", "random", "convex", "through_origin", "nearly_straight", "ideal"])
+        kind = rng.choice(["random", "random", "convex", "through_origin", "nearly_straight", "ideal", "lattice"])
         if kind == "convex":
             ts = sorted(rng.uniform(0, 2 * math.pi) for _ in range(nv))
             r = rng.uniform(0.2, 0.9)
@@ -151,6 +151,12 @@ def gen_poly(rng, n):
                     w = [w[0] - eps * v[1] / nv_, w[1] + eps * v[0] / nv_]
                 j = rng.randrange(nv)
                 vs[j], vs[(j + 1) % nv] = v, w
+        if kind == "lattice":
+            # natural measure-zero loci: a vertex at the origin, edges ending at / through the origin, horizontal, vertical and
+            # symmetric edges (coordinates from a small exact grid)
+            pts = [[0.0, 0.0], [0.5, 0.0], [0.0, 0.5], [-0.5, 0.0], [0.0, -0.5], [0.5, 0.4], [0.5, -0.4], [-0.5, 0.4], [-0.5, -0.4],
+                   [0.25, 0.25], [-0.25, 0.25], [0.25, -0.25], [0.75, 0.0], [0.0, 0.75], [0.5, 0.5], [-0.5, 0.5]]
+            vs = rng.sample(pts, nv)
         if kind == "ideal":
             # ideal vertices (on the unit circle), among them possibly the half-plane's point at infinity (1, 0)
             ts = sorted(rng.uniform(0.5, 2 * math.pi - 0.5) for _ in range(nv))      # on-screen in the half-plane window
@@ -422,6 +428,18 @@ def run_misc(inp):
                                    "t1": float(a.theta1), "t2": float(a.theta2)}
             else:
                 out["geodesic"] = {"path": np.asarray(a.get_path().vertices, float).tolist()}
+        # the bi-infinite geodesic through the two points (Geodesic object: two ideal endpoints)
+        if model != "klein":
+            npat = len(d.ax.patches)
+            d.draw_geodesic(seg.geodesic())
+            a = d.ax.patches[-1] if len(d.ax.patches) > npat else None
+            if a is not None and isinstance(a, matplotlib.patches.Arc):
+                out["full_geodesic"] = {"centre": [float(a.center[0]), float(a.center[1])], "w": float(a.width), "h": float(a.height),
+                                        "t1": float(a.theta1), "t2": float(a.theta2)}
+            elif a is not None:
+                out["full_geodesic"] = {"path": np.asarray(a.get_path().vertices, float).tolist()}
+            else:
+                out["full_geodesic"] = {"none": True}
         d.draw_point(H.Point(np.array(inp["pts"]), model="klein"))
         out["points"] = np.asarray(d.ax.lines[-1].get_xydata(), float).tolist()
         if model == "klein":
@@ -434,7 +452,9 @@ def run_misc(inp):
             if len(d.ax.collections) > ncol:
                 c = d.ax.collections[-1]
                 w = np.asarray(c.get_widths() if hasattr(c, "get_widths") else 2 * c._widths, float)
-                out["horo"] = {"centre": np.asarray(c.get_offsets(), float)[0].tolist(), "diam": float(w[0])}
+                hh = np.asarray(c.get_heights() if hasattr(c, "get_heights") else 2 * c._heights, float)
+                out["horo"] = {"centre": np.asarray(c.get_offsets(), float)[0].tolist(), "diam": float(w[0]), "height": float(hh[0]),
+                               "angle": float(np.asarray(c.get_angles() if hasattr(c, "get_angles") else c._angles, float).reshape(-1)[0])}
             elif len(d.ax.patches) > npat:
                 r_ = d.ax.patches[-1]
                 out["horo"] = {"rect_y": float(r_.get_y())}
@@ -526,6 +546,27 @@ def judge_misc(inp, obs, lr):
         mid = c + r * np.array([math.cos(math.radians(g["t1"] + ext / 2)), math.sin(math.radians(g["t1"] + ext / 2))])
         if not in_region(model, mid, 1e-6):
             return {"expected": "arc inside the model's region", "observed": mid.tolist(), "tags": dict(tags, what="arc side")}
+    if model != "klein" and "full_geodesic" in obs:
+        fg = obs["full_geodesic"]
+        ref = ref_geodesic(model, a, b)
+        if ref is not None and ref[1] < RTHR * 0.9:
+            c, r = ref
+            tol = 1e-4 * (1 + r)
+            if "centre" not in fg:
+                return {"expected": {"arc of": [c.tolist(), r]}, "observed": fg, "tags": dict(tags, what="geodesic not drawn as arc")}
+            if abs(fg["w"] - 2 * r) > 2 * tol or np.linalg.norm(np.array(fg["centre"]) - c) > tol:
+                return {"expected": {"centre": c.tolist(), "radius": r}, "observed": fg, "tags": dict(tags, what="geodesic circle")}
+            # the whole geodesic: from ideal point to ideal point, inside the region, containing both points
+            ext = (fg["t2"] - fg["t1"]) % 360.0
+            ends = [c + r * np.array([math.cos(math.radians(t)), math.sin(math.radians(t))]) for t in (fg["t1"], fg["t2"])]
+            on_bdry = all((abs(np.linalg.norm(e) - 1) < 1e-3) if model == "poincare" else (abs(e[1]) < 1e-3 * (1 + r)) for e in ends)
+            mid = c + r * np.array([math.cos(math.radians(fg["t1"] + ext / 2)), math.sin(math.radians(fg["t1"] + ext / 2))])
+            def inside_arc(p):
+                t = math.degrees(math.atan2(p[1] - c[1], p[0] - c[0]))
+                return ((t - fg["t1"]) % 360.0) <= ext + 1e-3
+            if not (on_bdry and in_region(model, mid, 1e-6) and (model != "poincare" or mid @ mid < 1) and inside_arc(a) and inside_arc(b)):
+                return {"expected": "arc between the two ideal endpoints, inside the region, through both points",
+                        "observed": {"arc": fg, "ends": [e.tolist() for e in ends], "mid": mid.tolist()}, "tags": dict(tags, what="geodesic extent")}
     if not close(obs["points"], tr(inp["pts"]), 1e-8):
         return {"expected": tr(inp["pts"]).tolist(), "observed": obs["points"], "tags": dict(tags, what="points")}
     if model == "klein":
@@ -551,7 +592,8 @@ def judge_misc(inp, obs, lr):
         if c is not None and rho < RTHR * 0.99:
             if "centre" not in obs["horo"]:
                 return {"expected": {"centre": c.tolist(), "diam": 2 * rho}, "observed": obs["horo"], "tags": dict(tags, what="horocycle missing")}
-            if np.linalg.norm(np.array(obs["horo"]["centre"]) - c) > 1e-4 * (1 + rho) or abs(obs["horo"]["diam"] - 2 * rho) > 2e-4 * (1 + rho):
+            if np.linalg.norm(np.array(obs["horo"]["centre"]) - c) > 1e-4 * (1 + rho) or abs(obs["horo"]["diam"] - 2 * rho) > 2e-4 * (1 + rho) \
+                    or abs(obs["horo"]["height"] - 2 * rho) > 2e-4 * (1 + rho):
                 return {"expected": {"centre": c.tolist(), "diam": 2 * rho}, "observed": obs["horo"], "tags": dict(tags, what="horocycle")}
     for nm, what in obs["rejected"]:
         if what != "GeometryError":
@@ -577,6 +619,107 @@ def judge_misc(inp, obs, lr):
     return None
 
 
+# ------------------------------------------------------------------------------------------------
+# S3c: drawing histories — several draws of the same and of different objects in ONE drawing, interleaved with
+#      set_/add_/precompose_transform and in-place edits; each artist against the object's current geometry under the current transform
+# ------------------------------------------------------------------------------------------------
+def gen_hist(rng, n):
+    for _ in range(n):
+        model = rng.choice(MODELS)
+        nobj = rng.choice([1, 2, 3])
+        objs = []
+        for _o in range(nobj):
+            kind = rng.choice(["point", "polygon", "segment"])
+            k = {"point": rng.choice([1, 2]), "polygon": rng.choice([3, 4, 5]), "segment": 2}[kind]
+            objs.append({"kind": kind, "pts": [ball_pt(rng, 0.8) for _ in range(k)]})
+        steps = []
+        for _s in range(rng.choice([4, 6, 8])):
+            c = rng.random()
+            if c < 0.5:
+                steps.append({"op": "draw", "obj": rng.randrange(nobj)})
+            elif c < 0.8:
+                steps.append({"op": rng.choice(["set_transform", "add_transform", "precompose_transform"]), "iso": rand_iso(rng)})
+            else:
+                j = rng.randrange(nobj)
+                steps.append({"op": "edit", "obj": j, "pts": [ball_pt(rng, 0.8) for _ in objs[j]["pts"]]})
+        steps.append({"op": "draw", "obj": rng.randrange(nobj)})
+        yield {"model": model, "objs": objs, "steps": steps}
+
+
+def _mk_obj(o):
+    pts = H.Point(np.array(o["pts"]), model="klein")
+    if o["kind"] == "point":
+        return pts
+    if o["kind"] == "polygon":
+        return H.Polygon(pts)
+    return H.Segment(pts)
+
+
+def _read_last(d, kind, before):
+    """model coordinates of the object's defining points as drawn by the newest artist"""
+    npat, ncol, nlin = before
+    if kind == "point":
+        return np.asarray(d.ax.lines[-1].get_xydata(), float) if len(d.ax.lines) > nlin else None
+    if len(d.ax.collections) > ncol:       # Klein model: straight collections
+        c = d.ax.collections[-1]
+        if kind == "polygon":
+            return np.asarray(c.get_paths()[0].vertices, float)[:-1]
+        return np.asarray(c.get_segments()[0], float)
+    if len(d.ax.patches) > npat:
+        a = d.ax.patches[-1]
+        if isinstance(a, matplotlib.patches.Arc):
+            c0, r0 = np.array(a.center, float), a.width / 2
+            return np.array([c0 + r0 * np.array([math.cos(math.radians(t)), math.sin(math.radians(t))]) for t in (a.theta1, a.theta2)])
+        return np.asarray(a.get_path().vertices, float)
+    return None
+
+
+def run_hist(inp):
+    d = D.HyperbolicDrawing(model=inp["model"])
+    objs = [_mk_obj(o) for o in inp["objs"]]
+    cur = [np.array(o["pts"]) for o in inp["objs"]]
+    out = []
+    try:
+        for st in inp["steps"]:
+            if st["op"] == "draw":
+                o, kind = objs[st["obj"]], inp["objs"][st["obj"]]["kind"]
+                before = (len(d.ax.patches), len(d.ax.collections), len(d.ax.lines))
+                {"point": d.draw_point, "polygon": d.draw_polygon, "segment": d.draw_geodesic}[kind](o)
+                got = _read_last(d, kind, before)
+                Tm = np.asarray(d.transform.proj_data, float)
+                pr = apply_T(Tm, np.concatenate([np.ones((len(cur[st["obj"]]), 1)), cur[st["obj"]]], -1))
+                want = klein_to(inp["model"], pr[:, 1:] / pr[:, :1])
+                out.append({"kind": kind, "got": None if got is None else got.tolist(), "want": want.tolist()})
+            elif st["op"] == "edit":
+                j = st["obj"]
+                new = np.concatenate([np.ones((len(st["pts"]), 1)), np.array(st["pts"])], -1)
+                # in-place edit of the object's data through the public interface
+                fresh = _mk_obj({"kind": inp["objs"][j]["kind"], "pts": st["pts"]})
+                objs[j].set(fresh.proj_data, aux_data=fresh.aux_data) if hasattr(objs[j], "set") else None
+                cur[j] = np.array(st["pts"])
+            else:
+                getattr(d, st["op"])(iso_matrix(st["iso"]))
+    finally:
+        plt.close(d.fig)
+    return {"draws": out}
+
+
+def judge_hist(inp, obs, lr):
+    tags = {"model": inp["model"]}
+    if "exc" in obs:
+        return {"expected": "drawing history runs", "observed": obs, "tags": dict(tags, exc=obs["exc"])}
+    for i, dr in enumerate(obs["draws"]):
+        if dr["got"] is None:
+            return {"expected": "an artist for draw %d" % i, "observed": None, "tags": dict(tags, what="no artist", kind=dr["kind"])}
+        got, want = np.array(dr["got"]), np.array(dr["want"])
+        # every defining point (vertex / endpoint / point) is among the artist's points (arcs: either order)
+        for w in want:
+            if np.min(np.linalg.norm(got - w, axis=1)) > 1e-4 * (1 + np.linalg.norm(w)) + (0.06 if inp["model"] == "halfspace" and dr["kind"] != "point" else 0):
+                return {"expected": {"draw": i, "points at": want.tolist()}, "observed": got.tolist()[:12],
+                        "tags": dict(tags, what="history", kind=dr["kind"])}
+    return None
+
+
 CLAUSES = [
     Clause("assemble_corr", "corr", gen_poly, run_assemble, judge_assemble, lean=lean_assemble, site="drawtools.HyperbolicDrawing.get_polygon_arcpath",
            budget={"quick": 60, "thorough": 1200},
@@ -584,6 +727,9 @@ CLAUSES = [
     Clause("polygon_oracle", "oracle", gen_poly, run_poly, judge_poly, site="drawtools.HyperbolicDrawing.draw_polygon",
            budget={"quick": 150, "thorough": 4000},
            what="PathPatch read back from the axes: one MOVETO, starts at v0, vertices in order, closed, every Bezier sample on the hyperbolic edge (independent reference circle, 1e-4(1+r); sagitta bound for straight pieces) inside the region; 3..8 vertices, convex or not, edges through the origin, nearly straight arcs; Poincare and half-plane; drawing transforms"),
+    Clause("history_oracle", "oracle", gen_hist, run_hist, judge_hist, site="drawtools.HyperbolicDrawing (several draws in one drawing)",
+           budget={"quick": 60, "thorough": 1500},
+           what="drawing histories in one HyperbolicDrawing: draws of the same and of different points / polygons / segments interleaved with set_transform, add_transform, precompose_transform and in-place edits (set); each new artist must show the object's CURRENT geometry under the CURRENT transform"),
     Clause("artists_oracle", "oracle", gen_misc, run_misc, judge_misc, lean=lean_misc, site="drawtools draw_geodesic / draw_point / draw_polygon(klein) / draw_horosphere / ProjectiveDrawing",
            budget={"quick": 60, "thorough": 1500},
            what="Arc centre/radius/extent = the geodesic's; points, Klein polygons and projective polygons/points/segments (charts 0-2) at their model coordinates after the drawing's transform; horocycles; 1-/3-dimensional objects rejected"),
